@@ -15,10 +15,7 @@ Both models are tied to the code on every run by the `ssa` and `sig` corresponde
 / block rewrites go through the inference engine; they are exercised by the metamorphic oracle of
 `vlib/c13.py` only (claim is *partial*).
 
-Pending (stated, not proved here):
--- theorem paren_insensitive : parse (`(` :: toks ++ [`)`]) = parse toks
---   (parentheses leave no node in `expr::E`; needs the expression-parser model of C08; the `ssa`
---    dump shows the fact on every module: there is no parenthesis node kind in `Tag`)
+`paren_insensitive` lives in `Props/C13b.lean` (it imports C08's parser model).
 -/
 namespace SamVerif.Scope
 
